@@ -72,6 +72,7 @@ def sub_fidelity(rho: np.ndarray, sigma: np.ndarray) -> float:
     if not is_density(rho) or not is_density(sigma):
         raise ValueError("Sub-fidelity is only defined for density operators.")
 
-    return np.real(
-        np.trace(rho @ sigma) + np.sqrt(2 * (np.trace(rho @ sigma) ** 2 - np.trace(rho @ sigma @ rho @ sigma)))
-    )
+    tr_rho_sigma = np.real(np.trace(rho @ sigma))
+    tr_rho_sigma_sq = np.real(np.trace(rho @ sigma @ rho @ sigma))
+    # The radicand is non-negative in exact arithmetic; rounding can make it slightly negative (e.g. for pure states).
+    return tr_rho_sigma + np.sqrt(max(2 * (tr_rho_sigma**2 - tr_rho_sigma_sq), 0.0))
